@@ -7,6 +7,8 @@ import Logrange.Model.Nesting
 import Logrange.Model.Format
 import Logrange.Model.ShowPartitions
 import Logrange.Generated.C13
+import Logrange.Model.LqlSites
+import Logrange.Generated.C13Sites
 /-! Model driver for C13 (decoders, escaper, positions, field lists). Byte strings are hex (`-` = empty). Requests:
 
 * `uvarint <buf>` · `bytes <buf>` · `ev.unmarshal <buf>` · `le.unmarshal <buf>` · `qreq <buf>` · `qres <buf>`
@@ -24,6 +26,8 @@ import Logrange.Generated.C13
 * `nest.hole <text>` → `1` | `0`: the class of F25b (the byte-scan guard lets the text pass, its token nesting exceeds the limit)
 * `fmt.parse <fstr>` → `ok <field>…` (`ts:<layout>` `msg:<arg>` `var:<name>` `vars` `const:<text>`) | `err` | `panic`; `strings.ToLower`
   is ASCII lower-casing here (the harness only compares format strings on which the two agree)
+* `reldt <s>` → `ok <text handed to ParseFloat>` | `err` | `panic`: the indexing of `lql.parseRalativeDateTime` (first byte and accepted
+  last bytes regenerated)
 -/
 open Go Logrange Logrange.Wire Driver
 
@@ -171,6 +175,13 @@ def step (_ : Unit) (toks : List String) : Unit × String :=
     (match Format.parse lower (unhex f) with
      | .ok fs => ("ok " ++ " ".intercalate (fs.map fun x => match x with
          | .ts l => "ts:" ++ hex l | .msg j => "msg:" ++ hex j | .var n => "var:" ++ hex n | .vars => "vars" | .const c => "const:" ++ hex c)).trimAscii.toString
+     | .err => "err"
+     | .panic _ => "panic"
+     | .outOfFuel => "fuel")
+  | ["reldt", s] =>
+    (match LqlSites.relDateTime (UInt8.ofNat Logrange.Generated.C13Sites.relDateFirst)
+        (Logrange.Generated.C13Sites.relDateDims.map UInt8.ofNat) (unhex s) with
+     | .ok b => "ok " ++ hex b
      | .err => "err"
      | .panic _ => "panic"
      | .outOfFuel => "fuel")
